@@ -228,11 +228,16 @@ def validate (input : DataType) : Errors :=
         let es := validateDedicatedMemberAttrs (ma.parentAttrs.map (·.containerTy)) (some "parent") typePaths es
         let named := match input with | .struct s => s.namedFields | .enum _ => false
         validateParentAttrs named ma.parentAttrs byKind es
-      | .variant _ =>
+      | .variant v =>
         let es := barkAtMemberAttr ma.parentAttrs.length "parent" es
         let es := validateDedicatedMemberAttrs (ma.litAttrs.map (·.containerTy)) (some "literal") typePaths es
         let es := validateDedicatedMemberAttrs (ma.patAttrs.map (·.containerTy)) (some "pattern") typePaths es
-        validateDedicatedMemberAttrs (ma.typeHintAttrs.map (·.containerTy)) (some "type_hint") typePaths es
+        let es := validateDedicatedMemberAttrs (ma.typeHintAttrs.map (·.containerTy)) (some "type_hint") typePaths es
+        -- the payload fields of the variant
+        v.fields.foldl (fun es f =>
+          let es := validateDedicatedMemberAttrs (f.attrs.attrs.map (·.attr.containerTy)) none typePaths es
+          let es := validateDedicatedMemberAttrs (f.attrs.ghostAttrs.map (·.attr.containerTy)) none typePaths es
+          validateMemberErrorInstrs isEnum f.attrs.errorInstrs es) es
     validateMemberErrorInstrs isEnum ma.errorInstrs es) es
   match input with
   | .struct s => validateFields s byKind typePaths es
